@@ -652,12 +652,11 @@ impl Quantity {
         Self::new(
             #[cfg(feature = "std")]
             self.value.abs(),
+            //Clearing the sign bit is what the std abs does. Comparing with zero instead would return
+            //-0.0 for -0.0 (and keep the sign of a negative NaN), which differs from the std build
+            //as soon as the result is divided by.
             #[cfg(not(feature = "std"))]
-            if self.value >= 0.0 {
-                self.value
-            } else {
-                -self.value
-            },
+            f32::from_bits(self.value.to_bits() & 0x7FFF_FFFF),
             self.unit,
         )
     }
